@@ -261,3 +261,23 @@ func WriteStore(ctx context.Context, cc cache.Client, ds string, store cachepb.S
 	}
 	return cc.Modify(ctx, ds, &cache.Opts{Store: store}, nil, upds)
 }
+
+// RawStored renders the typed values a store holds for the given leaf paths as they are (representation included).
+func RawStored(ctx context.Context, cc cache.Client, ds string, store cachepb.Store, paths []IPath) string {
+	var sl [][]string
+	for _, p := range paths {
+		sl = append(sl, p.Slice(true))
+	}
+	opts := &cache.Opts{Store: store}
+	if store == cachepb.Store_INTENDED {
+		opts.Priority = -1
+	}
+	var r []string
+	for _, u := range cc.Read(ctx, ds, opts, sl, 0) {
+		tv := &sdcpb.TypedValue{}
+		_ = proto.Unmarshal(u.Bytes(), tv)
+		r = append(r, fmt.Sprintf("%s owner=%q prio=%d: %v", strings.Join(u.GetPath(), "/"), u.Owner(), u.Priority(), tv))
+	}
+	sort.Strings(r)
+	return strings.Join(r, "\n  ")
+}
